@@ -34,3 +34,7 @@ def gen(ctx):
 
 def run(ctx):
     return schedcase.check(ctx, "C04")
+
+
+def search(ctx, res, broken):
+    schedcase.search(ctx, "C04", res, broken)
